@@ -12,12 +12,19 @@
     c10.ctor.new <kind> S          (oracle-only on the implementation side) → ok
     c10.ctor.b64 S                 model: OwnedBase64PublicKey::with_bytes (S = raw bytes)
     c10.exh <kind> S ORA           model: `c10.id` on prefix ++ [a, b] for all a, b of the alphabet
+    c10.opaque <type> S            unchecked identifier types store any string → ok S
+    c10.ip6 S / c10.ip4 S          reference Ipv6Addr / Ipv4Addr parser (Model/IdsIp.lean) → t / f
+    c10.ipexh <6|4> S S iK         the same on prefix ++ w for all words w of length K over an alphabet
+
+  Every `6` / `4` oracle entry of every request is also compared with the reference parsers; a
+  difference is answered `oracle-differs-from-reference` (a model disagreement).
 
   An oracle the model asks for that is not in the table makes the answer `bad-op` (detected by
   evaluating with both defaults), never a silent default.
 -/
 import RumaModel.Proto
 import RumaModel.Model.IdsExt
+import RumaModel.Model.IdsIp
 import RumaModel.Spec.IdGrammar
 namespace Ruma.Driver.C10
 open Ruma Ruma.Proto Ruma.Ids
@@ -73,11 +80,30 @@ def ext (t : Table) (dflt : Bool) : Ext where
   isIpv4 := fun h => lookup t '4' h dflt
   uniAlnum := fun s => if s.all (· < 128) then true else lookup t 'u' s dflt
 
+/-- The real parsers' verdicts in the table agree with the reference parsers. -/
+def tableMatchesRef (t : Table) : Bool :=
+  t.all (fun e =>
+    if e.1 == '6' then ipv6Ref e.2.1 == e.2.2
+    else if e.1 == '4' then ipv4Ref e.2.1 == e.2.2
+    else true)
+
 /-- Evaluate with both defaults; a difference means an oracle was missing. -/
 def withExt (t : Table) (f : Ext → String) : String :=
-  let a := f (ext t false)
-  let b := f (ext t true)
-  if a == b then a else "bad-op"
+  if !tableMatchesRef t then "oracle-differs-from-reference"
+  else
+    let a := f (ext t false)
+    let b := f (ext t true)
+    if a == b then a else "bad-op"
+
+/-- All words of length `k` over the alphabet, first letter varying slowest. -/
+def wordsOf (alphabet : List Nat) : Nat → List Str
+  | 0 => [[]]
+  | k + 1 => (wordsOf alphabet k).flatMap (fun w => alphabet.map (fun c => w ++ [c]))
+
+def natTok (t : String) : Option Nat :=
+  match t.toList with
+  | 'i' :: rest => (String.ofList rest).toNat?
+  | _ => none
 
 def fS : Res Str → String
   | .ok s => strTok s
@@ -199,6 +225,30 @@ def handle (toks : List String) : String :=
     match kindOf k, parseStrTok alg, parseStrTok name with
     | some _, some alg, some name => "ok " ++ strTok (keyFromParts alg name)
     | _, _, _ => "bad-op"
+  | ["c10.ip6", s] =>
+    match parseStrTok s with
+    | some s => tf (ipv6Ref s)
+    | none => "bad-op"
+  | ["c10.ip4", s] =>
+    match parseStrTok s with
+    | some s => tf (ipv4Ref s)
+    | none => "bad-op"
+  | ["c10.ipexh", which, al, pre, k] =>
+    match parseStrTok al, parseStrTok pre, natTok k with
+    | some al, some pre, some k =>
+      if k > 8 || al.any (· ≥ 128) then "bad-op"
+      else
+        let f := if which == "6" then some ipv6Ref else if which == "4" then some ipv4Ref else none
+        match f with
+        | some f => String.ofList ((wordsOf al k).map (fun w => if f (pre ++ w) then 't' else 'f'))
+        | none => "bad-op"
+    | _, _, _ => "bad-op"
+  | ["c10.opaque", ty, s] =>
+    match parseStrTok s with
+    | some s =>
+      if ["deviceid", "transactionid", "voipid", "onetimekeyname", "base64ordeviceid"].contains ty
+      then "ok " ++ strTok s else "bad-op"
+    | none => "bad-op"
   | ["c10.ctor.b64", b] =>
     match parseStrTok b with
     | some bytes => withExt [] (fun x => match withBytes x bytes with
